@@ -627,3 +627,10 @@ func RunOnce(main func(), prefix []int, maxSteps int, prune func(idx int, fp uin
 
 // Obs returns the observations logged so far in the running execution.
 func (s *Sched) Obs() []string { return s.obs }
+
+// IsExit reports whether a recovered panic value is the sentinel of vm.Exit
+// (callers that recover must re-panic it).
+func IsExit(r any) bool {
+	_, ok := r.(exitSentinel)
+	return ok
+}
